@@ -222,6 +222,7 @@ class Interp:
         from . import lib
         self.lib = lib
         self.fn_refs = {}           # id(callable value) -> (ref term, value)
+        self.unknown_attrs = set()  # (id(obj), attr): constructor attributes the sidecar does not know (arbitrary value, frame-exempt)
         self.hooks = {}             # anchor hooks: 'after-call:<text>' -> fn(interp, frame, args, result)
 
     # ------------------------------------------------------------------ wrapping terms
@@ -621,6 +622,42 @@ class Interp:
         if v is None:
             self.ctx.raise_exc('AttributeError', "'NoneType' object has no attribute '%s'" % name)
         raise Unsupported('setattr on %r' % (v,))
+
+    def fill_unknown_attrs(self, o):
+        """attributes that the class's constructor initialises with a literal number / bool but that the sidecar's pre-state
+        does not know (the source is ahead of the sidecar): in an arbitrary history they hold an ARBITRARY value of that type.
+        They are exempt from frame (modifies) clauses - the explicit clauses decide what must not change."""
+        cls = o.cls
+        if cls is None:
+            return
+        found = {}
+        for c in cls.mro():
+            m = c.methods.get('__init__') if hasattr(c, 'methods') else None
+            if m is None:
+                continue
+            for n in ast.walk(m.node):
+                tgt, val = None, None
+                if isinstance(n, ast.Assign) and len(n.targets) == 1:
+                    tgt, val = n.targets[0], n.value
+                elif isinstance(n, (ast.AugAssign, ast.AnnAssign)):
+                    tgt, val = n.target, None
+                if not (isinstance(tgt, ast.Attribute) and isinstance(tgt.value, ast.Name) and tgt.value.id == 'self'):
+                    continue
+                kind = None
+                if isinstance(val, ast.UnaryOp) and isinstance(val.op, ast.USub):
+                    val = val.operand
+                if isinstance(val, ast.Constant) and isinstance(val.value, (bool, int, float)):
+                    kind = 'bool' if isinstance(val.value, bool) else ('int' if isinstance(val.value, int) else 'real')
+                found.setdefault(tgt.attr, []).append(kind)
+        for name, kinds in found.items():
+            if name in o.attrs or None in kinds or len(set(kinds)) != 1:
+                continue
+            sort = {'bool': z3.BoolSort(), 'int': z3.IntSort(), 'real': z3.RealSort()}[kinds[0]]
+            v = Sym(z3.Const('unknown_%s_%s' % (cls.name, name), sort), kinds[0])
+            o.attrs[name] = v
+            self.ctx.inputs['unknown_%s_%s' % (cls.name, name)] = v
+            self.unknown_attrs.add((id(o), name))
+            self.ctx.lib_used.add('attribute %s.%s is initialised by the constructor but unknown to the sidecar contract: it holds an arbitrary %s and is exempt from frame clauses' % (cls.name, name, kinds[0]))
 
     def raw_setattr(self, v, name, value):
         """object.__setattr__: stores the attribute without consulting an override"""
